@@ -1111,13 +1111,13 @@ pub fn drive_ec(t: &mut Tracer, tier: &str, seed: u64, plan: Option<String>) {
         let (a, b, f) = (arr(&v["a"]), arr(&v["b"]), v["f"].as_str().unwrap_or("").to_string());
         let (au, bu) = (be_u256(&a), be_u256(&b));
         if v["kind"] == "fp" {
-            let o = gp(|| match f.as_str() { "mul" => verif::fp_mont_mul(&au, &bu), "to_mont" => verif::fp_to_mont(&au), _ => verif::fp_from_mont(&au) });
+            let o = gp(|| match f.as_str() { "mul" => verif::fp_mont_mul(&au, &bu), "add" => verif::fp_add(&au, &bu), "to_mont" => verif::fp_to_mont(&au), _ => verif::fp_from_mont(&au) });
             let ob = o.ok().map(|x| u256_be(x)).unwrap_or(vec![0u8; 32]);
             t.emit(&sess(), "fp.op", json!({"prop": "C11", "f": f, "cls": "planned-window", "a": bytes(&a), "b": bytes(&b), "out": bytes(&ob), "outcome": o.name(), "detail": o.detail()}));
         } else if v["kind"] == "fn" {
-            let o = gp(|| verif::fn_mul(&au, &bu));
+            let o = gp(|| if f == "add" { verif::fn_add(&au, &bu) } else { verif::fn_mul(&au, &bu) });
             let ob = o.ok().map(|x| u256_be(x)).unwrap_or(vec![0u8; 32]);
-            t.emit(&sess(), "fn.op", json!({"prop": "C11", "f": "mul", "cls": "planned-window", "a": bytes(&a), "b": bytes(&b), "out": bytes(&ob), "outcome": o.name(), "detail": o.detail()}));
+            t.emit(&sess(), "fn.op", json!({"prop": "C11", "f": f, "cls": "planned-window", "a": bytes(&a), "b": bytes(&b), "out": bytes(&ob), "outcome": o.name(), "detail": o.detail()}));
         }
     }
     // ---- the fixed-base table: all 32 x 255 entries, one session (exhaustive in both tiers) ----
